@@ -289,6 +289,28 @@ def run(ctx: Ctx):
             ok = True
     if not ok:
         ctx.fail(cons, f.loc(), "stop() does not stop every application (their worker threads survive)")
+    # ... and stopping an application cannot fail for one whose start() failed half-way (it is
+    # registered before it is started): its stop() joins only consumer threads that were started
+    ta_ = model.cls("node.application", "ThreadingApplication")
+    tstop = ta_.methods.get("stop")
+    cons = "ThreadingApplication.stop:join#only-started"
+    ctx.inst(cons)
+    if tstop is not None:
+        ctx.use(tstop)
+        gt = cfg_of(tstop)
+        att = Atomizer(model, tstop.module, ta_)
+        for n in gt.nodes:
+            for c in n.calls():
+                if isinstance(c.func, ast.Attribute) and c.func.attr == "join" and A.dotted(c.func.value).startswith("self."):
+                    thr = A.dotted(c.func.value)
+                    fx = must_facts(gt, att, n)
+                    if not any((f_[0] == f"{thr}.ident" and f_[1] == "is" and f_[2] is None and f_[3] is False)
+                               or (f_[0] == f"{thr}.is_alive()" and f_[1] == "truthy" and f_[3] is True) for f_ in fx):
+                        ctx.fail(cons, gt.loc(n), f"`{n.text(50)}` joins a consumer thread whether or not it was started: "
+                                 f"an application whose start() failed half-way (registered by add_application "
+                                 f"before it is started) makes Node.stop() raise RuntimeError in this join - the "
+                                 f"applications after it are never stopped")
+                        break
 
     # ---------------- R2 _stopping guards ------------------------------------------------------
     ctx.rule("C18-R2", "_stopping guards: newcomers are closed, no watchdogs, no dialling", floor=3)
